@@ -641,7 +641,7 @@ impl C10 {
             for j in 0..i {
                 let a = gram[i][j];
                 let b = gram[j][i];
-                if !((a - b).abs() <= 1e-14 * (a.abs() + b.abs()) || (a.is_nan() && b.is_nan())) {
+                if !(a == b || (a - b).abs() <= 1e-14 * (a.abs() + b.abs()) || (a.is_nan() && b.is_nan())) {
                     rep.fail("kernel-asymmetric", "kernel-apply", format!("{}: K(a,b) = {:e} but K(b,a) = {:e} for a={:?}, b={:?}", ctx, a, b, pts[i], pts[j]));
                 }
             }
